@@ -43,6 +43,9 @@ KNOWN = [
  ("C11", "zinc-normalisation-loses:timestamp-at-offset-with-seconds",
   "a timestamp in a named zone at a time when that zone's offset had seconds (local mean time, e.g. London before 1847: -00:01:15) is accepted, but RFC 3339 (used by Zinc) can only spell whole-minute offsets: re-encoding drops the seconds and the instant moves by up to 59 s. Outside the 1980-2060 range of C06; a repair needs a format decision (emit UTC + zone, or reject), not a small patch",
   "0000-02-29T00:00:00Z London -> 0000-02-28T23:58:45-00:01 London, which denotes an instant 15 s earlier"),
+ ("C12", "sort-unsafe:numbers-with-different-units",
+  "Number::partial_cmp answers None for Numbers with different units while Number::cmp orders them, and Value/List/Dict/Grid inherit that; sort(), dedup-after-sort and BTreeSet::from_iter compare through `lt` (i.e. partial_cmp), so a collection holding Numbers with different units comes back unsorted (or the standard library's sort panics with 'does not correctly implement a total order'), and sort+dedup keeps duplicates. The incomparability is pinned by the unit test test_number_cmp (!(a<b), !(a<=b), !(a>b), !(a>=b) for 20m vs 20), so partial_cmp cannot be made to agree with cmp without editing that test; collections without unit-carrying Numbers are unaffected (checked separately, not covered by this entry)",
+  "let mut v: Vec<Value> = (0..40).map(|i| Number::make_with_unit(((i*7)%40) as f64, unit(if i%2==0 {\"m\"} else {\"s\"})).into()).collect(); v.sort(); -> v is returned in its original order 0m,7s,14m,21s,...: not sorted by Value::cmp"),
  ("C11", "hayson-normalisation-loses:timestamp-at-offset-with-seconds",
   "same defect through Hayson: the dateTime val is RFC 3339 and drops the seconds of a local-mean-time offset",
   "{\"_kind\":\"dateTime\",\"val\":\"0000-02-29T00:00:00Z\",\"tz\":\"London\"} -> val 0000-02-28T23:58:45-00:01"),
@@ -56,6 +59,8 @@ def main():
         f.append({"property": p, "status": "known", "matcher": m, "what": w, "witness": wit})
     doc = {"_comment": "Genuine defects of j2inn/libhaystack found by the checks. status=known: recorded, the check prints KNOWN-FINDING and exits 0 for exactly this signature (matcher = the failure signature computed by the harness on the minimised case); status=fixed: repaired by the named 'fix:' commit in /repo and suppresses nothing (the check reports the violation again if it ever returns). Never written at run time.",
            "findings": f}
-    json.dump(doc, open("/verif/known_findings.json", "w"), indent=1, ensure_ascii=False)
+    import os
+    out = os.path.join(os.path.dirname(os.path.dirname(os.path.abspath(__file__))), "known_findings.json")
+    json.dump(doc, open(out, "w"), indent=1, ensure_ascii=False)
     print(len(f), "findings")
 main()
